@@ -246,3 +246,126 @@ Fixpoint exec (g : group) (l : list op) : list (group * op * out * group) :=
   | [] => []
   | s :: l' => let r := step g s in (g, s, snd r, fst r) :: exec (fst r) l'
   end.
+
+(* ------------------------------------------------------------------------
+   The group table (groups.groups) for ONE name, and the description file.
+
+   The admission rules are stated for "the group" a client names when it
+   joins; the code keeps one *Group object per name in a table, creates it in
+   add() when the name is not registered, and drops it from the table
+   - in add(), when the description changed and cannot be read (missing,
+     half-written, unparsable), through deleteUnlocked: only if the object
+     has no members;
+   - in Delete(name) (group.Update, for an expired idle group): only if the
+     object has no members.
+   A joiner keeps the pointer that its own Add returned: its admission step
+   runs on that object whether or not it is still registered.
+
+     TWrite f   the description file is replaced (None: removed / unreadable)
+     TAdd       add(name, nil) under groups.mu (+ Group.mu of the registered
+                object): create, or reload, or fail
+     TOn k s    one critical section s (not SAdd) of Group.mu of object k
+     TDelete    Delete(name)                                               *)
+
+Record table := mkTable {
+  t_objs  : list group;   (* every object ever created under the name, by index *)
+  t_cur   : option nat;   (* the object registered under the name *)
+  t_file  : option desc;  (* the file: None = missing or unreadable *)
+  t_dirty : bool          (* the file differs from what the registered object last read *)
+}.
+
+Inductive top :=
+| TWrite (f : option desc)
+| TAdd
+| TOn (k : nat) (s : op)
+| TDelete.
+
+Inductive tres :=
+| TNone                              (* not a step of the code (bad pointer, SAdd through TOn) *)
+| TWritten
+| TAddOk (k : nat) (ev : list event) (* Add returned object k *)
+| TAddErr                            (* Add returned an error *)
+| TOut (o : out)
+| TDeleted (b : bool).
+
+Fixpoint upd {A} (k : nat) (x : A) (l : list A) : list A :=
+  match l, k with
+  | [], _ => []
+  | _ :: l', O => x :: l'
+  | y :: l', S k' => y :: upd k' x l'
+  end.
+
+Definition no_clients (g : group) : bool :=
+  match g_clients g with [] => true | _ => false end.
+
+Definition tstep (t : table) (s : top) : table * tres :=
+  match s with
+  | TWrite f => (mkTable (t_objs t) (t_cur t) f true, TWritten)
+  | TAdd =>
+      match t_cur t with
+      | None =>
+          match t_file t with
+          | Some d => (mkTable (t_objs t ++ [created d]) (Some (length (t_objs t))) (t_file t) false,
+                       TAddOk (length (t_objs t)) [])
+          | None => (t, TAddErr)
+          end
+      | Some k =>
+          match nth_error (t_objs t) k with
+          | None => (t, TAddErr)
+          | Some g =>
+              if t_dirty t then
+                match t_file t with
+                | Some d =>
+                    let r := do_add g (Some d) in
+                    (mkTable (upd k (fst r) (t_objs t)) (t_cur t) (t_file t) false,
+                     TAddOk k (o_events (snd r)))
+                | None =>
+                    (* deleteUnlocked: refuses while the object has members *)
+                    if no_clients g
+                    then (mkTable (t_objs t) None (t_file t) (t_dirty t), TAddErr)
+                    else (t, TAddErr)
+                end
+              else
+                let r := do_add g None in
+                (mkTable (upd k (fst r) (t_objs t)) (t_cur t) (t_file t) false,
+                 TAddOk k (o_events (snd r)))
+          end
+      end
+  | TOn k s =>
+      match s with
+      | SAdd _ => (t, TNone)
+      | _ =>
+          match nth_error (t_objs t) k with
+          | None => (t, TNone)
+          | Some g =>
+              let r := step g s in
+              (mkTable (upd k (fst r) (t_objs t)) (t_cur t) (t_file t) (t_dirty t), TOut (snd r))
+          end
+      end
+  | TDelete =>
+      match t_cur t with
+      | None => (t, TDeleted false)
+      | Some k =>
+          match nth_error (t_objs t) k with
+          | None => (t, TDeleted false)
+          | Some g =>
+              if no_clients g
+              then (mkTable (t_objs t) None (t_file t) (t_dirty t), TDeleted true)
+              else (t, TDeleted false)
+          end
+      end
+  end.
+
+Definition tinit : table := mkTable [] None None false.
+
+Fixpoint trun (t : table) (l : list top) : table :=
+  match l with
+  | [] => t
+  | s :: l' => trun (fst (tstep t s)) l'
+  end.
+
+Fixpoint texec (t : table) (l : list top) : list (table * top * tres * table) :=
+  match l with
+  | [] => []
+  | s :: l' => let r := tstep t s in (t, s, snd r, fst r) :: texec (fst r) l'
+  end.
